@@ -557,6 +557,12 @@ fn server_level(cfg: &RunCfg) -> Outcome {
     if dies {
         ops.push(Op::AwaitBytes(80 + gen::below(400) as usize));
         ops.push(Op::Rst);
+    } else if gen::ratio(1, 3) {
+        // half-closes its sending side right after the request and keeps reading: it is
+        // still there, and the stream must go on until the senders are gone
+        ops.push(Op::Fin);
+        ops.push(Op::AwaitFinal(1));
+        gen::count("probe.client_half_closed_and_keeps_reading");
     } else {
         ops.push(Op::AwaitFinal(1));
         ops.push(Op::Fin);
@@ -650,7 +656,7 @@ pub fn spec() -> PropertySpec {
             Scenario { name: "c11.oversize", property: "C11", func: l1_oversize, runs_quick: 60_000, runs_thorough: 1_000_000, doc: "events may exceed the 65528-byte read buffer" },
             Scenario { name: "c11.server", property: "C11", func: server_level, runs_quick: 120_000, runs_thorough: 3_000_000, doc: "level 2" },
         ],
-        required_probes: vec!["probe.two_or_more_events_delivered", "probe.several_senders", "probe.queue_overrun", "probe.sender_outlived_client", "probe.client_reset_during_stream", "probe.slow_client_backpressure", "probe.block_size_on_digit_boundary", "probe.type_with_line_break_offered"],
+        required_probes: vec!["probe.two_or_more_events_delivered", "probe.several_senders", "probe.queue_overrun", "probe.sender_outlived_client", "probe.client_reset_during_stream", "probe.slow_client_backpressure", "probe.block_size_on_digit_boundary", "probe.type_with_line_break_offered", "probe.client_half_closed_and_keeps_reading"],
         components: comp,
         assumptions: vec![
             "sender threads are replaced by actors whose steps are atomic: EventSender::send is one non-blocking channel operation",
